@@ -12,11 +12,11 @@ RULE = ("one evaluation = one history of 6-20 events over {message A->X, message
 ASSUMPTIONS = ["a reinstall is a fresh key store for the same phone number; the server double drops the old installation's one-time keys when the new identity is uploaded",
                "with automatic trust on the library resumes through the retry path: resumption is judged at quiescence, not on the first stanza",
                "histories are sampled"]
-REQUIRED = ["histories", "checkpoints", "identity_changes_after_pin", "refusals_incoming", "refusals_outgoing", "autotrust_replacements",
+REQUIRED = ["busy_restarts", "histories", "checkpoints", "identity_changes_after_pin", "refusals_incoming", "refusals_outgoing", "autotrust_replacements",
             "restarts_between_pin_and_change", "autotrust:on", "autotrust:off", "group_messages"]
 TIMEOUT = {"quick": 600, "thorough": 7200}
 
-EVENTS = ["a>x", "a>x", "x>a", "x>a", "group-a", "group-x", "reinstall-x", "restart-a", "restart-x", "b>x", "x>a-undecryptable"]
+EVENTS = ["a>x", "a>x", "x>a", "x>a", "group-a", "group-x", "reinstall-x", "restart-a", "restart-a-busy", "restart-x", "b>x", "x>a-undecryptable"]
 
 
 def one_history(acc, seed, tag):
@@ -118,8 +118,11 @@ def one_history(acc, seed, tag):
                     acc.count("identity_changes_after_pin")
                     if restart_between:
                         acc.count("restarts_between_pin_and_change")
-            elif ev == "restart-a":
-                run_actions([{"op": "restart", "who": A}, {"op": "wait-quiet"}])
+            elif ev in ("restart-a", "restart-a-busy"):
+                # (busy: A's first start finds its key store locked by another process and is refused; then it starts normally)
+                run_actions([{"op": "restart", "who": A, "busy": ev == "restart-a-busy"}, {"op": "wait-quiet"}])
+                if ev == "restart-a-busy":
+                    acc.count("busy_restarts")
                 if pin is not None:
                     restart_between = True
             elif ev == "restart-x":
